@@ -198,22 +198,22 @@ Definition entry (sel : Z) (toks : list Z) : list Z :=
                         let* pr := dLayout (dOpt dZ) in let* pp := dLayout (dOpt dZ) in
                         ret (jr, al, pv, ov, st, hp, sr, va, pr, pp)) toks with
          | Some (jr, al, pv, ov, st, hp, sr, va, pr, pp) =>
-             tag 1 ++ eBool (all_tiers jr) ++
-             tag 2 ++ eBool (all_tiers al) ++
-             tag 3 ++ eBool (all_tiers pv) ++
-             tag 4 ++ eBool (any_tiers ov) ++
+             tag 1 ++ eBool (job_ready jr) ++
+             tag 2 ++ eBool (allocatable al) ++
+             tag 3 ++ eBool (preemptive pv) ++
+             tag 4 ++ eBool (overused ov) ++
              tag 5 ++ eBool (job_starving st) ++
              tag 6 ++ eBool (sub_job_ready hp jr sr) ++
              tag 7 ++ eOpt eZ (job_valid va) ++
-             tag 8 ++ eOpt eZ (predicate pr) ++
-             tag 9 ++ eOpt eZ (predicate pp)
+             tag 8 ++ eOpt eZ (predicate_fn pr) ++
+             tag 9 ++ eOpt eZ (pre_predicate_fn pp)
          | None => bad_input end
   (* 3: permit / reject votes *)
   | 3 => match run_dec (let* jp := dLayout dZ in let* je := dLayout dZ in let* hp := dBool in
                         let* sp := dLayout dZ in ret (jp, je, hp, sp)) toks with
          | Some (jp, je, hp, sp) =>
-             tag 1 ++ eBool (vote_tiers jp) ++
-             tag 2 ++ eBool (vote_tiers je) ++
+             tag 1 ++ eBool (job_pipelined jp) ++
+             tag 2 ++ eBool (job_enqueueable je) ++
              tag 3 ++ eBool (sub_job_pipelined hp jp sp)
          | None => bad_input end
   (* 4: orderings with scripted comparator tables *)
@@ -266,11 +266,9 @@ Definition entry (sel : Z) (toks : list Z) : list Z :=
              then match heap_sort (vq_less_b i) (q_tasks i) with
                   | Some out =>
                       tag 1 ++ eList eZ (map vt_uid out) ++
-                      (* the less function itself on all ordered pairs of different
-                         victims (the harness reads less(a, b) off the pop order of the
-                         two-victim queue [b, a]); 0 on the diagonal by convention *)
-                      tag 2 ++ eMatB (q_tasks i)
-                                 (fun l r => if i_id (vt_item l) =? i_id (vt_item r) then false else vq_less_b i l r)
+                      (* the less function itself on ALL ordered pairs, diagonal included
+                         (the harness reads the closure of the real queue) *)
+                      tag 2 ++ eMatB (q_tasks i) (vq_less_b i)
                   | None => model_error
                   end
              else [-1]
